@@ -1,8 +1,154 @@
-(** C11 — Sequential histories behave like a key-value map. (interim) *)
-From Coq Require Import List NArith ZArith String Bool.
-From Kismet Require Import Ops.Ops Pure.Hash Proofs.HashProofs.
-(** Whatever the load estimates say, a sharded write goes to one of the key's
-    two shards: the one probed (second by load order) if the entry is there,
-    else the first by load order. *)
+(** C11 — Sequential histories behave like a key-value map with explainable evictions.
+
+    Kernel-checked here, clause by clause.
+    - "every lookup returns exactly the value a simple map predicts": in the
+      kernel model, on every sequential run (any directory contents, any
+      maintenance, any fault position unless stated): a successful plain [set]
+      leaves the key's name bound to the inode its source named
+      ([C11_set_binds]); a successful plain [put] leaves it bound to that inode
+      or to exactly what it was bound to before, never anything else
+      ([C11_put_binds], fault-free); a lookup changes no binding and, when it
+      hits, returns a descriptor on the inode the name was bound to
+      ([C11_get_reads]); fault-free, it misses only when the name is unbound
+      ([C11_get_miss]); hence a lookup after a successful set returns the set's
+      inode ([C11_set_then_get]).  What that inode contains is C01's subject.
+    - "a miss only if the entry was evicted": every other entry of the
+      directory keeps its binding or disappears, whatever the write does
+      ([C11_others_keep_or_vanish]); which entries maintenance may remove is
+      C07 / C08 / C17.
+    - "a sharded cache never holds two copies of one key": for arbitrary
+      responses, a sharded write renames / links onto the key's secondary-shard
+      path exactly when its probe of that path said the key is there, and onto
+      the primary-shard path otherwise ([C11_one_copy]).
+    - "a successful set or put always consumes its source": for arbitrary
+      responses, success implies that after the accepted publication the source
+      path was unlinked, successfully or finding it already gone
+      ([C11_source_consumed]).
+    Histories over mixed plain / sharded / stacked handles with several
+    independent handles, and the attribution of every disappearance to a Second
+    Chance eviction of an over-capacity directory, are decided by the
+    differential history runs against the map oracle (vlib/c11.py). *)
+From Coq Require Import List NArith ZArith String Bool Lia.
+From Kismet Require Import Pure.Hash FS.Fs FS.Prog Spec.Wp Ops.Ops Conc.Effect Proofs.HashProofs Proofs.NeverMasked
+  Proofs.KvFacts Seq.Plain Seq.Steps Seq.Bind Seq.Sane Proofs.KvSeq.
+Import ListNotations.
+
 Theorem C11_sorted_pair : forall hash sec n, let '(a, b) := shard_ids hash sec n in a <> b.
 Proof. intros. pose proof (shard_ids_spec hash sec n) as H. cbv zeta in H. destruct (shard_ids hash sec n). destruct H as (_ & _ & H & _). exact H. Qed.
+
+Theorem C11_set_binds : forall cfg dir cap k v i0 w o,
+  s_writer cfg = Some (FPlain dir cap) ->
+  plainp dir = true -> valid_name (k_name k) = true -> plainp v = true ->
+  (forall q, v <> dir ++ q) -> (forall q, dir <> v ++ q) ->
+  names_plain (w_fs w) -> name_of (w_fs w) v = Some i0 ->
+  let '(r, w', _, _) := run (cache_set cfg k v) w o in
+  is_ok r = true -> name_of (w_fs w') (dir ++ [k_name k]) = Some i0.
+Proof. intros cfg dir cap k v i0 w o Hw Hb Hn Hv Ho Ha. exact (cache_set_binds cfg dir cap Hw k v Hb Hn Hv Ho Ha i0 w o). Qed.
+
+Theorem C11_put_binds : forall cfg dir cap k v i0 j0 w o,
+  s_writer cfg = Some (FPlain dir cap) ->
+  plainp dir = true -> valid_name (k_name k) = true -> plainp v = true ->
+  (forall q, v <> dir ++ q) -> (forall q, dir <> v ++ q) ->
+  o_fault o = None -> names_plain (w_fs w) ->
+  name_of (w_fs w) v = Some i0 -> name_of (w_fs w) (dir ++ [k_name k]) = j0 ->
+  let '(r, w', _, _) := run (cache_put cfg k v) w o in
+  is_ok r = true ->
+  name_of (w_fs w') (dir ++ [k_name k]) = Some i0 \/ (name_of (w_fs w') (dir ++ [k_name k]) = j0 /\ j0 <> None).
+Proof. intros cfg dir cap k v i0 j0 w o Hw Hb Hn Hv Ho Ha. exact (cache_put_binds cfg dir cap Hw k v Hb Hn Hv Ho Ha i0 j0 w o). Qed.
+
+Theorem C11_get_reads : forall d name f0 w o,
+  plainp (cd_base d) = true -> valid_name name = true -> w_fs w = f0 -> names_plain f0 ->
+  let '(r, w', _, _) := run (cd_get d name) w o in
+  (forall x, name_of (w_fs w') x = name_of f0 x) /\
+  (forall fd, r = Ok (Some fd) -> fdino (w_fs w') fd = name_of f0 (cd_base d ++ [name]) /\ name_of f0 (cd_base d ++ [name]) <> None).
+Proof. intros d name f0 w o Hb Hn. exact (plain_get_reads d name Hb Hn f0 w o). Qed.
+
+Theorem C11_get_miss : forall d name f0 w o,
+  valid_name name = true -> w_fs w = f0 -> o_fault o = None -> names_plain f0 ->
+  resolve f0 (cd_base d ++ [name]) = inl (cd_base d ++ [name]) ->
+  (forall i, name_of f0 (cd_base d ++ [name]) = Some i -> inode_of f0 i <> None) ->
+  let '(r, _, _, _) := run (cd_get d name) w o in
+  r = Ok None -> name_of f0 (cd_base d ++ [name]) = None.
+Proof. intros d name f0 w o Hn. exact (plain_get_miss d name Hn f0 w o). Qed.
+
+Theorem C11_set_then_get : forall d name v i0 w o o2,
+  plainp (cd_base d) = true -> valid_name name = true -> plainp v = true ->
+  (forall q, v <> cd_base d ++ q) -> (forall q, cd_base d <> v ++ q) ->
+  names_plain (w_fs w) -> name_of (w_fs w) v = Some i0 ->
+  let '(r, w1, _, _) := run (cd_set d name v) w o in
+  is_ok r = true ->
+  let '(r2, w2, _, _) := run (cd_get d name) w1 o2 in
+  (forall fd, r2 = Ok (Some fd) -> fdino (w_fs w2) fd = Some i0) /\
+  (o_fault o2 = None -> resolve (w_fs w1) (cd_base d ++ [name]) = inl (cd_base d ++ [name]) ->
+   inode_of (w_fs w1) i0 <> None -> r2 <> Ok None).
+Proof. exact set_then_get. Qed.
+
+Theorem C11_others_keep_or_vanish : forall d name v (which : bool) f0 w o,
+  plainp (cd_base d) = true -> valid_name name = true -> plainp v = true -> w_fs w = f0 -> names_plain f0 ->
+  let '(_, w', _, _) := run (cd_publish (if which then insert_or_update else insert_or_touch) d name v) w o in
+  forall n, n <> name ->
+    name_of (w_fs w') (cd_base d ++ [n]) = name_of f0 (cd_base d ++ [n]) \/ name_of (w_fs w') (cd_base d ++ [n]) = None.
+Proof. intros d name v which f0 w o Hb Hn Hv. exact (others_keep_or_vanish d name v Hb Hn Hv f0 which w o). Qed.
+
+Theorem C11_sharded_set_binds : forall dir nsh total k v h i0 w o,
+  plainp dir = true -> valid_name (k_name k) = true -> plainp v = true ->
+  (forall q, v <> dir ++ q) -> (forall q, dir <> v ++ q) ->
+  (eff_shards nsh <= TWO64)%N ->
+  names_plain (w_fs w) -> name_of (w_fs w) v = Some i0 ->
+  let '(a, b) := shard_ids (k_hash k) (k_sec k) nsh in
+  let '(r, w', _, _) := run (sh_publish cd_set h dir nsh total k v) w o in
+  is_ok r = true ->
+  exists sid, (sid = a \/ sid = b) /\
+    (name_of (w_fs w') ((dir ++ [format_id sid]) ++ [k_name k]) = Some i0 \/
+     name_of (w_fs w') ((dir ++ [format_id sid]) ++ [k_name k]) = None).
+Proof.
+  intros dir nsh total k v h i0 w o Hd Hn Hv Ho Ha Hsz Hpl Hv0.
+  pose proof (shard_ids_spec (k_hash k) (k_sec k) nsh) as Hs. cbv zeta in Hs.
+  destruct (shard_ids (k_hash k) (k_sec k) nsh) as [a b] eqn:Hids. destruct Hs as (Hla & Hlb & Hne & _).
+  assert (Hab : format_id a <> format_id b) by (intros He; apply Hne; apply format_id_injective; [lia|lia|exact He]).
+  exact (sharded_set_binds dir nsh total k v Hd Hn Hv Ho Ha a b Hab Hids i0 h w o Hpl Hv0).
+Qed.
+
+Theorem C11_one_copy : forall (which : bool) dir h n t k v,
+  (eff_shards n <= TWO64)%N ->
+  forall s, wp (t_step dir (k_name k)) (sh_publish (if which then cd_set else cd_put) h dir n t k v) (fun _ _ => True) s.
+Proof. exact sequential_writer_targets_the_probed_copy. Qed.
+
+Theorem C11_one_copy_on_every_run : forall (which : bool) dir h n t k v w o,
+  (eff_shards n <= TWO64)%N ->
+  let '(_, _, _, tr) := run (sh_publish (if which then cd_set else cd_put) h dir n t k v) w o in
+  exists s', mon_run (t_step dir (k_name k)) None tr = Some s'.
+Proof. exact targets_the_probed_copy_on_every_run. Qed.
+
+Theorem C11_source_consumed : forall cfg k v,
+  consumes v (cache_set cfg k v) /\ consumes v (cache_put cfg k v).
+Proof. intros. split; [apply consumes_cache_set|apply consumes_cache_put]. Qed.
+
+Theorem C11_source_consumed_on_every_run : forall cfg k v w o,
+  let '(r, _, _, tr) := run (cache_set cfg k v) w o in is_ok r = true -> mon_run (c_step v) 0%nat tr = Some 2%nat.
+Proof. intros cfg k v w o. exact (success_means_source_consumed v _ (consumes_cache_set v cfg k) w o). Qed.
+
+(** Non-vacuity: a directory "w" holding key "a" (inode 2) and "b" (inode 3), a
+    value file "v" (inode 4).  The premises of the theorems hold of this state;
+    set "a" <- "v" succeeds and binds w/a to inode 4, leaves w/b on inode 3 and
+    consumes "v"; the following get returns a descriptor on inode 4; the same
+    with put leaves w/a on inode 2. *)
+Example C11_example :
+  let mk (f : fs) (p : path) (c : N) :=
+    let '(f1, i) := alloc_inode f (mkInode false [c] 292 100%Z 50%Z 1 true) in
+    set_names f1 ((p, i) :: names f1) in
+  let '(f0, d) := alloc_inode empty_fs (mkInode true [] 493 0%Z 0%Z 2 true) in
+  let f0 := set_names f0 ((["w"%string], d) :: names f0) in
+  let f := mk (mk (mk f0 ["w"; "a"]%string 65%N) ["w"; "b"]%string 67%N) ["v"%string] 66%N in
+  let cfg := mkStack 0 (Some (FPlain ["w"%string] 300)) [] None false ["systmp"%string] in
+  let o := mkOracle [1000; 1001; 1002]%Z [18446744073709551615%N] [] [] [] None 0 1%Z Relatime in
+  let go (which : bool) :=
+    let '(r, w1, _, _) := run ((if which then cache_set else cache_put) cfg (mkKey "a"%string 1 2) ["v"%string]) (mkWorld f 0 []) o in
+    let '(r2, w2, _, _) := run (cache_get cfg (mkKey "a"%string 1 2)) w1 o in
+    (r, name_of (w_fs w1) ["w"; "a"]%string, name_of (w_fs w1) ["w"; "b"]%string, name_of (w_fs w1) ["v"%string],
+     match r2 with Ok (Some fd) => fdino (w_fs w2) fd | _ => None end) in
+  (forallb (fun pi => plainp (fst pi)) (names f) = true /\ plainp ["w"%string] = true /\ valid_name "a" = true /\
+   name_of f ["v"%string] = Some 4%nat /\ name_of f ["w"; "a"]%string = Some 2%nat) /\
+  go true = (Ok tt, Some 4%nat, Some 3%nat, None, Some 4%nat) /\
+  go false = (Ok tt, Some 2%nat, Some 3%nat, None, Some 2%nat).
+Proof. vm_compute. repeat split; reflexivity. Qed.
